@@ -26,6 +26,14 @@ import (
 func (k *KVStore) evictTable(t *table.Table) error {
 	var total int
 	var evictErr error
+
+	if len(k.tables) != 0 && k.tables[len(k.tables)-1] == t {
+		// The live entries are moved to the newest table. Never drain a table
+		// into itself: make the drained table read-only and open a new one.
+		if err := k.makeTable(); err != nil {
+			return err
+		}
+	}
 	t.Range(func(hkey uint64, e storage.Entry) bool {
 		entry, _ := t.GetRaw(hkey)
 		err := k.PutRaw(hkey, entry)
